@@ -78,6 +78,7 @@ static void c06_case(int packed, int len, int idi)
     uint8_t* src = gB.hi - len - (g_src_shift & 3);   /* payload source: exact extent when the shift is 0 */
     if (g_src_shift == 4) src = msg + hdr;       /* the payload is already in place: source == destination */
     if (g_src_shift == 5) src = NULL;            /* an empty payload given as (NULL, 0) */
+    if (g_src_shift == 6) src = msg + 8;         /* the payload lies inside the header that is about to be written (a brief message upgraded in place) */
     uint8_t fillb = fill ? 0xA5 : 0xFF;
     static uint8_t exp[16 + 24 + 2100 + 96];
     for (int i = 0; i < 16; i++) pre[i] = (uint8_t)(0x3C + i);
@@ -150,6 +151,8 @@ static void suite_c06(void)
         hs_reset();
         int brief = packed & 1;
         int maxlen = brief ? maxlen_brief : maxlen_full;
+        /* the longest payloads the 9-bit length can express, also in the quick tier */
+        if (!g_thorough && !g_lite && (packed >> 4) == 0) for (int len = (brief ? 2036 : 2028) - 12; len <= (brief ? 2036 : 2028); len++) for (int idi = 0; idi < 2; idi++) { g_src_shift = 0; c06_case(packed, len, idi); }
         for (int len = 0; len <= maxlen; len++) {
             if (g_lite && ((packed >> 4) & 3) > 1) break;
             if (len > 72 && (packed >> 4) != 0 && (len % 61) != 0 && !(g_thorough && ((packed >> 6) & 7) == 4)) continue;   /* long lengths: all of them for pattern 0/prior 0/fill 0 and (thorough) the initialised prior, a stride otherwise */
@@ -158,6 +161,7 @@ static void suite_c06(void)
                 if (len <= 8 && idi < 2) for (g_src_shift = 1; g_src_shift < 4; g_src_shift++) c06_case(packed, len, idi);
                 if (idi < 2 && !((packed >> 10) & 1)) { g_src_shift = 4; c06_case(packed, len, idi); }
                 if (len == 0 && idi < 2) { g_src_shift = 5; c06_case(packed, len, idi); }
+                if (len <= 8 && !(packed & 1) && !((packed >> 10) & 1)) { g_src_shift = 6; c06_case(packed, len, idi); }
                 g_src_shift = 0;
                 if (len > 72 && idi >= 8 && !(g_thorough && (idi & 7) == (len & 7))) { if (!g_thorough) break; else continue; }
                 if (g_lite && idi >= 8 && (idi & 7) != (len & 7)) continue;
@@ -180,10 +184,14 @@ static void c09_case(int len, int prior, int placement)
     uint8_t* msg = place_msg(&gA, total, &tail);
     uint8_t* pre = msg - 16;
     static uint8_t exp[16 + 2100 + 96];
-    uint8_t pb = prior == 0 ? 0x00 : prior == 1 ? 0xFF : 0xA5;
+    uint8_t pb = prior == 0 ? 0x00 : prior == 1 ? 0xFF : 0xA5;      /* priors 2 and 4: A5 */
     for (int i = 0; i < 16; i++) pre[i] = (uint8_t)(0x3C + i);
     memset(msg, pb, (size_t)(total + tail));
     if (prior == 3) for (int i = 0; i < total + tail; i++) msg[i] = (uint8_t)(i * 7 + 3);
+    if (prior == 4) {   /* a header that already announces the final length and pad (a template copied in, or a second Pad) over dirty pad bytes */
+        rset(msg, fld(fmt, "acf_msg_length"), (uint64_t)(total / 4));
+        rset(msg, fld(fmt, "pad"), (uint64_t)pad);
+    }
     memcpy(exp, pre, (size_t)(16 + total + tail));
     uint8_t* em = exp + 16;
     memset(em + len, 0, (size_t)pad);
@@ -216,7 +224,7 @@ static void suite_c09(void)
     for (int len = 12; len <= 2044; len++) {
         if (!my_unit()) continue;
         if (g_lite && len > 80 && len % 37 > 3) continue;
-        for (int prior = 0; prior < 4; prior++) for (int placement = 0; placement < 2; placement++) c09_case(len, prior, placement);
+        for (int prior = 0; prior < 5; prior++) for (int placement = 0; placement < 2; placement++) c09_case(len, prior, placement);
     }
     /* the dedicated length accessors carry every 9-bit value */
     if (my_unit()) {
@@ -390,6 +398,16 @@ static void suite_c13(void)
 }
 #include "explore_ser2.inc"
 
+/* the thunks give every argument expression of a library call a side effect; an entry point that evaluates one twice
+ * (a function turned into a macro) is reported once per run */
+static void check_arg_evaluation(const char* suite)
+{
+    if (!w_ev_mismatches()) return;
+    uint8_t nm[96]; w_ev_last(nm, sizeof nm);
+    char key[160]; snprintf(key, sizeof key, "%s evaluates an argument expression more or less than once", (char*)nm);
+    violation(suite, key, "", "%llu calls; the call site passes expressions with side effects, e.g. f(*p++)", (unsigned long long)w_ev_mismatches());
+}
+
 int main(int argc, char** argv)
 {
     const char* suite = "", *csarg = NULL;
@@ -423,6 +441,7 @@ int main(int argc, char** argv)
     else if (!strcmp(suite, "C09")) suite_c09();
     else if (!strcmp(suite, "C13")) suite_c13();
     else if (!run_ser2(suite)) { fprintf(stderr, "unknown suite %s\n", suite); return 2; }
+    check_arg_evaluation(suite);
     emit_counters(suite);
     return 0;
 }
